@@ -53,7 +53,10 @@ def coarsen(fmt, cues):
     return out
 
 
-def gen_set(rng, nlang, short=False):
+EXTRA_WORDS = [";>", "wink;>", "i++;>", "a;>b", "</p>", "<p>", "<br>", "&;", ";&", "x;", "<!--", "-->", "]]>", "<sync>", ";<"]   # (not MicroDVD's "|" and "{y:i}": that format has no way to spell them as text)
+
+
+def gen_set(rng, nlang, short=False, extra_rng=None):
     """`short`: the set may hold a cue shorter than a frame, followed at once by the next cue (both land in one frame of a
     MicroDVD hop; every format on the chain can still tell the two apart by their ends)"""
     langs = {}
@@ -67,6 +70,10 @@ def gen_set(rng, nlang, short=False):
             if short and rng.random() < 0.3:
                 d = 30000      # a cue shorter than a frame
             lines = [" ".join(rng.choice(WORDS) for _ in range(rng.randint(1, 4))) for _ in range(rng.randint(1, 3))]
+            if extra_rng is not None and extra_rng.random() < 0.12:
+                # a word that looks like markup or an escape of one of the formats on the way
+                k_ = extra_rng.randrange(len(lines))
+                lines[k_] = lines[k_] + " " + extra_rng.choice(EXTRA_WORDS) + extra_rng.choice(["", " end"])
             if len(lines) >= 2 and rng.random() < 0.15:
                 # a line holding nothing but a no-break space (what WebVTT's "&nbsp;" filler line reads as)
                 lines.insert(rng.randint(1, len(lines) - 1), "\u00a0")
@@ -105,12 +112,13 @@ def explore(chk):
     chains += [[f] for f in FORMATS]
     chk.exhaustive = True
     per = 6 if chk.tier == "quick" else 40
+    extra_sub = chk.sub("markup_like_words")
     for chain in chains:
         multi_ok = all(f in ("dfxp", "sami") for f in chain)
         for k in range(per):
             # cues shorter than a frame only on chains whose formats can all express a cue's own end (SAMI cannot: a cue that
             # has no length at the chain's resolution gets the next sync as its end)
-            abstract = gen_set(rng, rng.choice([1, 2, 3]) if multi_ok else 1, short=("sami" not in chain and k % 3 == 2))
+            abstract = gen_set(rng, rng.choice([1, 2, 3]) if multi_ok else 1, short=("sami" not in chain and k % 3 == 2), extra_rng=extra_sub)
             cs0 = capio.build_set(abstract)
             start = obs(cs0)
             case = {"chain": chain, "shared_objects": bool(k % 2), "set": {l: [(s, e, [n[1] for n in ns if n[0] == "T"]) for (s, e, ns) in caps] for l, caps in abstract.items()}}
